@@ -28,7 +28,8 @@ from vf.oracles.struct import struct, diff
 PROPERTY = 'C20'
 RULE = ('cases over a fixed corpus of calls (parse of harvested accepted / rejected statements and of truncated '
         'statements; plan of harvested mindsdb statements and of hand-written predictor / CTE / join / DML queries '
-        'under 4 catalog shapes; render of harvested statements to 5 targets; quick = a fixed sub-sample, thorough = '
+        'under 4 catalog shapes; parse of the production-pair sentences of the live grammars; render of harvested statements and of '
+        'hand-written statements with target-specific literals to 7 targets; quick = a fixed sub-sample, thorough = '
         'all): (a) schedule = 2/3/4/8 threads x drawn call sequences x sharing mode {none, catalog, render} x '
         'switching {free-running with 1 us switch interval, forced hand-over at drawn line boundaries inside the '
         'library}, (b) history = drawn sequence of 5..30 calls re-using catalog and renderer objects, (c) hashseed = '
